@@ -6,7 +6,7 @@ MCNoSkip == {}
 \* tags whose expected answer the unpatched tree does not give (open findings):
 \* removed from Next in the "deep" simulation so that long behaviours are not
 \* all cut short at the first known deviation
-MCSkipOpen == {"PacketOut-badbuf", "FlowMod-badbuf"}
+MCSkipOpen == {"FlowMod-addbad-none"}
 MCXids1 == <<"x1">>
 \* edge-cover exports: freeze one group of dimensions, cover every transition of the rest
 FrozenCfg   == ml = 128 /\ fl = 0 /\ BoundedE
